@@ -552,6 +552,49 @@ def sampleFile : File :=
                             features := [] }],
                  mtags := [], sources := [.mk (e "s") []] }] }
 
+/-- the hypothesis of `C14_sound` is met by it -/
+example : WellFormed sampleFile := by
+  refine ⟨by decide, ?_, ?_⟩
+  · intro b hb
+    simp only [sampleFile, List.mem_singleton] at hb
+    subst hb
+    refine ⟨by simp [EntOk, falsy], ?_, ?_, ?_, ?_, ?_⟩
+    · intro g hg; simp only [List.mem_singleton] at hg; subst hg; simp [EntOk, falsy]
+    · intro da hda; simp only [List.mem_singleton] at hda; subst hda
+      refine ⟨by simp [EntOk, falsy], by simp [falsy], rfl, ?_⟩
+      intro i d n hi
+      match i with
+      | 0 =>
+        simp at hi; obtain ⟨rfl, rfl⟩ := hi
+        refine ⟨rfl, ?_, by simp, by simp⟩
+        intro _
+        refine ⟨rfl, by simp, by simp; decide, ?_⟩
+        intro s hs _; cases hs; decide +kernel
+      | 1 =>
+        simp at hi; obtain ⟨rfl, rfl⟩ := hi
+        refine ⟨rfl, by simp, ?_, by simp⟩
+        intro _
+        refine ⟨⟨_, rfl, by decide +kernel⟩, ?_⟩
+        intro s hs _; cases hs; decide +kernel
+      | k + 2 => simp at hi
+    · intro t ht; simp only [List.mem_singleton] at ht; subst ht
+      refine ⟨by simp [EntOk, falsy], by simp, ?_, ?_, ?_, by simp⟩
+      · intro da hda; simp [refArrays] at hda; subst hda; rfl
+      · right; refine ⟨rfl, ?_⟩; intro da hda; simp [refArrays] at hda; subst hda; rfl
+      · refine ⟨?_, ?_, ?_⟩
+        · intro da hda; simp [refArrays] at hda; subst hda; rfl
+        · intro da hda p hp; simp [refArrays] at hda; subst hda
+          simp [getDimUnits] at hp
+          rcases hp with rfl | rfl <;> right <;> decide +kernel
+        · intro u hu _; simp at hu; rcases hu with rfl | rfl <;> decide +kernel
+    · intro t ht; simp at ht
+    · intro e he; simp [sourcesEnts, sourceEnts] at he; subst he; simp [EntOk, falsy]
+  · intro n hn
+    simp [sampleFile, sectionsNodes, sectionNodes] at hn
+    subst hn
+    refine ⟨by simp [EntOk, falsy], ?_⟩
+    intro p hp; simp at hp; subst hp; simp [PropertyOk, falsy]
+
 example : validate sampleFile = .ok [] := by decide +kernel
 
 /-- an injected inconsistency is reported at its object: unsorted ticks on dimension 1 of the array -/
